@@ -56,7 +56,9 @@ ASSERTS = [
     ("unpack_list_mixed", "PackList([PackBool(), PackIntMod({m})]).unpack([1] + {i}.to_bits(({m} - 1).bit_length()), 0)"),
 ]
 # fresh boolean declarations: the wire is allocated inside the operation, left unknown, and must be exactly {0,1}
-DECLS = [("privvalbool", "r = PrivValBool(I[0])"), ("pubvalbool", "r = PubValBool(I[0])"),
+DECLS = [("self_guard_decl", "t = PrivVal(I[0])\n@guarded(t)\ndef _b():\n    return LinCombBool(t)\nr = _b()"),
+         ("self_guard_decl_not", "t = PrivVal(I[0])\n@guarded(t)\ndef _b():\n    return ~LinCombBool(t)\nr = _b()"),
+         ("privvalbool", "r = PrivValBool(I[0])"), ("pubvalbool", "r = PubValBool(I[0])"),
          ("to_bits_bit", "r = PrivVal(I[0]).to_bits()[0]"), ("check_positive_bit", "r = PrivVal(I[0]).check_positive()"),
          ("eq_bit", "r = PrivVal(I[0]) == 1")]
 
@@ -201,13 +203,13 @@ def worker(job):
                         R.count("solver_inconclusive")
                     continue
                 R.count("conclusive")
-                want = {0, 1} if tid in ("privvalbool", "pubvalbool") else {v if tid != "eq_bit" else int(v == 1)}
+                want = {0, 1} if tid in ("privvalbool", "pubvalbool", "self_guard_decl", "self_guard_decl_not") else {v if tid != "eq_bit" else int(v == 1)}
                 if tid == "to_bits_bit":
                     want = {v & 1}
                 if tid == "check_positive_bit":
                     want = {1}
                 R.case(cell="%s|bl%d" % (tid, bl), key=(tid, bl, v, p))
-                if not sols <= {0, 1} or (tid in ("privvalbool", "pubvalbool") and sols != {0, 1}):
+                if not sols <= {0, 1} or (tid in ("privvalbool", "pubvalbool") and sols != {0, 1}):   # (self-guard: the wire is the prover's, every choice must be a bit)
                     R.violation("declared-boolean-admits-non-boolean:" + tid, "%s admits wire values %s" % (decls[tid], sorted(sols)[:5]),
                                 op_src=decls[tid], bl=bl, p=p)
             continue
